@@ -2,7 +2,7 @@
    static /dev, user entries), the effect of omit lines, and what it does not contain. *)
 From Coq Require Import Sorting.Sorted Sorting.Permutation.
 From LC Require Import Lib.Bytes Lib.Lex Lib.Fields Lib.PathM Gen.Consts Model.StageList
-  Proofs.StageListP Proofs.StagePathP Proofs.StageFinalP Proofs.StagePipeP.
+  Proofs.StageListP Proofs.StagePathP Proofs.StageFinalP Proofs.StagePipeP Proofs.StageGlobP.
 Open Scope N_scope.
 Open Scope list_scope.
 
@@ -286,5 +286,193 @@ Proof.
     - right. rewrite (da_old _ _ _ (add_missing_da m)); [exact F|]. unfold mem. now rewrite F. }
   apply D. destruct (run_ops_frame _ _ _ _ E9 k Hu) as [F|F]; [|now left].
   rewrite F. apply D. now left.
+Qed.
+
+(* the installed-package database entries of the selected packages *)
+Definition vdbp : bytes := bs "/var/db/pkg/".
+Hypothesis TC : tree_closed t.
+Hypothesis TG : Forall good (keys t).
+Hypothesis no_vdb_recorded : forall n, In n all -> fprefix vdbp n = false.
+Hypothesis G7 : Forall good (keys m7).
+
+Lemma fprefix_under p d k : fprefix p d = true -> under d k = true -> fprefix p k = true.
+Proof.
+  intros H1 H2. apply fprefix_spec in H1 as (r1 & ->). apply under_spec in H2 as (r2 & ->).
+  apply fprefix_spec. exists (r1 ++ sl :: r2). now rewrite <- app_assoc.
+Qed.
+Lemma vdb_below_m7 d k : i_novdb i = false -> In d (map p_dir (selected (i_pkgs i))) ->
+  abs_cleanb d = true -> ~ In c_star d -> fprefix vdbp d = true ->
+  In k (keys t) -> under d k = true -> mem k m7 = true.
+Proof.
+  intros Hv Hd Hc Hs Hp Hk Hu.
+  assert (H3 : mem k m3 = true).
+  { rewrite Hv in E3. eapply (add_vdb_adds _ _ _ _ E3 d k Hd).
+    change (In k (glob_rec t (star_pat d))). now apply glob_rec_star_under. }
+  apply ext57; [now apply ext45, ext34|].
+  destruct (memb k u) eqn:Eu; [|reflexivity]. apply unstaged_spec in Eu as [Eu _].
+  apply no_vdb_recorded in Eu. rewrite (fprefix_under _ _ _ Hp Hu) in Eu. discriminate Eu.
+Qed.
+Lemma vdb_member d k : i_novdb i = false -> In d (map p_dir (selected (i_pkgs i))) ->
+  abs_cleanb d = true -> ~ In c_star d -> fprefix vdbp d = true ->
+  In (d ++ bs "/CONTENTS") (keys t) ->
+  In k (keys t) -> (k = d \/ under d k = true) -> omits_none uops k -> mem k mf = true.
+Proof.
+  intros Hv Hd Hc Hs Hp Hcont Hk [->|Hu] Ho.
+  - assert (Hdne : d <> []) by (destruct d; [discriminate Hc|discriminate]).
+    assert (Hu : under d (d ++ bs "/CONTENTS") = true) by (apply under_spec; now exists (bs "CONTENTS")).
+    pose proof (vdb_below_m7 d _ Hv Hd Hc Hs Hp Hcont Hu) as H7.
+    assert (Hpar : In d (nrparents (d ++ bs "/CONTENTS"))).
+    { erewrite nrparents_step; [now left|]. change (bs "/CONTENTS") with (sl :: bs "CONTENTS").
+      apply chop_app_noslash; [exact Hdne|]. intros H. vm_compute in H. repeat (destruct H as [H|H]; [discriminate H|]). exact H. }
+    assert (H8 : mem d (add_missing_dirs m7) = true).
+    { eapply add_missing_closed; [exact G7| |exact Hpar]. eapply da_ext; [apply add_missing_da|exact H7]. }
+    unfold mf. eapply da_ext; [apply add_missing_da|]. eapply run_ops_keeps; eauto.
+  - apply ext7f; [|exact Ho]. eapply vdb_below_m7; eauto.
+Qed.
+
+(* ---------------------------------------------------------------- what is NOT in the list *)
+Lemma m7_origin k : mem k m7 = true ->
+  In k sel \/ In k (link_candidates t)
+  \/ (i_novdb i = false /\ vdb_names t (map p_dir (selected (i_pkgs i))) k)
+  \/ (i_emptydev i = false /\ (ops_name t dops k \/ In k (ext_names xl)))
+  \/ ops_name t mops k \/ ops_name t sops k.
+Proof.
+  intros H7.
+  apply (tr_bound _ _ _ _ (run_ops_add_trans _ _ sops_adds _ _ E7)) in H7 as [H6|H]; [|tauto].
+  rewrite mem_exclude in H6. destruct (memb k (unstaged all m1)); [discriminate H6|].
+  apply (tr_bound _ _ _ _ (run_ops_add_trans _ _ mops_adds _ _ E5)) in H6 as [H4|H]; [|tauto].
+  assert (H3 : mem k m3 = true \/ (i_emptydev i = false /\ (ops_name t dops k \/ In k (ext_names xl)))).
+  { destruct (i_emptydev i); [injection E4 as <-; now left|].
+    apply (tr_bound _ _ _ _ (static_trans _ _ E4)) in H4 as [H|H]; [now left|now right]. }
+  destruct H3 as [H3|H]; [|tauto].
+  assert (H2 : mem k m2 = true \/ (i_novdb i = false /\ vdb_names t (map p_dir (selected (i_pkgs i))) k)).
+  { destruct (i_novdb i); [injection E3 as <-; now left|].
+    apply (tr_bound _ _ _ _ (add_vdb_trans _ _ _ _ E3)) in H3 as [H|H]; [now left|now right]. }
+  destruct H2 as [H2|H]; [|tauto].
+  apply (tr_bound _ _ _ _ (recover_links_trans _ _ _ E2)) in H2 as [H1|H]; [|tauto].
+  apply (tr_bound _ _ _ _ (add_pkgfiles_trans _ _ _ _ E1)) in H1 as [H0|H]; [discriminate H0|tauto].
+Qed.
+
+(* a region of names that nothing before the user's lists reaches stays empty, except for what
+   the user adds and for the parents of members *)
+Section Region.
+Variable R : bytes -> Prop.
+Hypothesis R_up : forall k k0, R k -> In k (nrparents k0) -> R k0.
+Hypothesis R_root : ~ R root_path.
+Hypothesis R_m7 : forall k, R k -> mem k m7 = false.
+Lemma missing_parent m k : Forall good (keys m) -> mem k m = false -> mem k (add_missing_dirs m) = true ->
+  k = root_path \/ exists k0, mem k0 m = true /\ In k (nrparents k0).
+Proof.
+  intros G E H. destruct (da_new _ _ _ (add_missing_da m) k E H) as (_ & k0 & Hk0 & Hin).
+  rewrite Forall_forall in G. destruct (G k0 Hk0) as [Hc|Hc].
+  - pose proof (pathdir_chop k0 Hc) as P. destruct (chop k0) as [d|] eqn:Ec.
+    + right. exists k0. split; [now apply mem_In|]. rewrite (nrparents_step _ _ Ec). rewrite P in Hin. exact Hin.
+    + rewrite P in Hin. destruct Hin as [<-|[]]. now left.
+  - subst k0. destruct Hin as [<-|[]]. now left.
+Qed.
+Lemma region_out k : R k -> mem k mf = true ->
+  ops_name t uops k \/ exists k0, mem k0 mf = true /\ In k (nrparents k0).
+Proof.
+  intros Hr Hk. destruct (mem k m9) eqn:E9k.
+  - left. apply (run_ops_keys _ _ _ _ E9) in E9k as [E8|H]; [|exact H]. exfalso.
+    destruct (mem k m7) eqn:E7k; [rewrite (R_m7 k Hr) in E7k; discriminate E7k|].
+    destruct (missing_parent m7 k G7 E7k E8) as [->|(k0 & Hk0 & Hin)]; [contradiction|].
+    rewrite (R_m7 k0 (R_up _ _ Hr Hin)) in Hk0. discriminate Hk0.
+  - right. destruct (missing_parent m9 k G9 E9k Hk) as [->|(k0 & Hk0 & Hin)]; [contradiction|].
+    exists k0. split; [|exact Hin]. unfold mf. eapply da_ext; [apply add_missing_da|exact Hk0].
+Qed.
+End Region.
+
+Definition devp : bytes := bs "/dev/".
+Lemma dev_nogo : descend_ok (bs "/dev") = false.      Proof. vm_compute. reflexivity. Qed.
+Lemma vardb_nogo : descend_ok (bs "/var/db") = false. Proof. vm_compute. reflexivity. Qed.
+Lemma dev_vdb_apart : compat devp vdbp = false.       Proof. vm_compute. reflexivity. Qed.
+
+Lemma not_traversed d k : d <> [] -> descend_ok d = false -> under d k = true -> ~ In k (link_candidates t).
+Proof.
+  intros Hd Hn Hu Hin. unfold link_candidates, keys in Hin. apply in_map_iff in Hin as ([k' nd] & <- & Hin).
+  apply filter_In in Hin as [_ Hin]. cbn [fst snd] in *. destruct nd; try discriminate Hin.
+  unfold traversed in Hin. apply andb_true_iff in Hin as [_ Hin]. rewrite forallb_forall in Hin.
+  rewrite (Hin d (under_parent d Hd _ Hu)) in Hn. discriminate Hn.
+Qed.
+
+Hypothesis sel_in_all : forall n, In n sel -> In n all.
+Hypothesis seldirs_ok : forall d, In d (map p_dir (selected (i_pkgs i))) ->
+  abs_cleanb d = true /\ ~ In c_star d /\ fprefix vdbp d = true.
+Hypothesis dops_plain : forallb (fun o => match o with OAdd li => negb (li_wild li) | _ => true end) dops = true.
+
+(* with -emptydev nothing is below /dev but what the user adds (and parents of members) *)
+Hypothesis mops_avoid_dev : forallb (op_avoids devp) mops = true.
+Hypothesis sops_avoid_dev : forallb (op_avoids devp) sops = true.
+Lemma dev_out k : i_emptydev i = true -> fprefix devp k = true -> mem k mf = true ->
+  ops_name t uops k \/ exists k0, mem k0 mf = true /\ In k (nrparents k0).
+Proof.
+  intros He Hp Hk. apply (region_out (fun k => fprefix devp k = true)); auto.
+  - intros x x0 Hx Hin. destruct (nrparents_prefix _ _ Hin) as (s' & _ & ->). now apply fprefix_app.
+  - intros H. vm_compute in H. discriminate H.
+  - intros x Hx. destruct (mem x m7) eqn:E; [|reflexivity]. exfalso.
+    assert (Ux : under (bs "/dev") x = true).
+    { apply fprefix_spec in Hx as (r & ->). apply under_spec. now exists r. }
+    destruct (m7_origin x E) as [H|[H|[[_ H]|[[H _]|[H|H]]]]].
+    + apply sel_in_all, no_dev_recorded in H. unfold devp in Hx. rewrite H in Hx. discriminate Hx.
+    + revert H. apply (not_traversed (bs "/dev")); [discriminate|exact dev_nogo|exact Ux].
+    + destruct H as (d & Hd & Hx'). destruct (seldirs_ok d Hd) as (Hc & Hs & Hv).
+      change (In x (glob_rec t (star_pat d))) in Hx'. apply glob_rec_star_inv in Hx'; auto.
+      pose proof (fprefix_compat _ _ _ Hx (fprefix_under _ _ _ Hv Hx')) as C. rewrite dev_vdb_apart in C. discriminate C.
+    + congruence.
+    + rewrite (ops_avoid _ _ _ _ mops_avoid_dev H) in Hx. discriminate Hx.
+    + rewrite (ops_avoid _ _ _ _ sops_avoid_dev H) in Hx. discriminate Hx.
+Qed.
+
+(* the VDB directory of a package that is not selected (or of any package with -novdb) holds
+   nothing but what the user adds (and parents of members) *)
+Lemma under_comparable a b k : under a k = true -> under b k = true -> a = b \/ under a b = true \/ under b a = true.
+Proof.
+  intros Ha Hb. apply under_spec in Ha as (x & ->). apply under_spec in Hb as (y & Hy).
+  assert (Hy' : (a ++ [sl]) ++ x = (b ++ [sl]) ++ y) by (now rewrite <- !app_assoc).
+  destruct (prefix_comparable _ _ _ _ Hy') as [(z & Hz)|(z & Hz)].
+  - destruct z as [|c z] using rev_ind.
+    + rewrite app_nil_r in Hz. apply app_inj_tail in Hz as [-> _]. now left.
+    + rewrite !app_assoc in Hz. apply app_inj_tail in Hz as [Hz _]. right; right. apply under_spec.
+      exists z. rewrite Hz. now rewrite <- app_assoc.
+  - destruct z as [|c z] using rev_ind.
+    + rewrite app_nil_r in Hz. apply app_inj_tail in Hz as [-> _]. now left.
+    + rewrite !app_assoc in Hz. apply app_inj_tail in Hz as [Hz _]. right; left. apply under_spec.
+      exists z. rewrite Hz. now rewrite <- app_assoc.
+Qed.
+Hypothesis mops_avoid_vdb : forallb (op_avoids vdbp) mops = true.
+Hypothesis sops_avoid_vdb : forallb (op_avoids vdbp) sops = true.
+Lemma vdb_out pd k : abs_cleanb pd = true -> fprefix vdbp pd = true ->
+  (i_novdb i = false -> forall d, In d (map p_dir (selected (i_pkgs i))) ->
+     d <> pd /\ under d pd = false /\ under pd d = false) ->
+  (k = pd \/ under pd k = true) -> mem k mf = true ->
+  ops_name t uops k \/ exists k0, mem k0 mf = true /\ In k (nrparents k0).
+Proof.
+  intros Hc Hv Hsep Hr Hk. apply (region_out (fun k => k = pd \/ under pd k = true)); auto.
+  - intros x x0 [->|Hx] Hin; right; [now apply nrparents_under|].
+    eapply under_trans; [exact Hx|now apply nrparents_under].
+  - intros [H|H]; [subst pd; discriminate Hc|]. apply under_spec in H as (r & H).
+    destruct pd as [|c pd']; [discriminate Hc|]. destruct pd'; discriminate H.
+  - intros x Hx. destruct (mem x m7) eqn:E; [|reflexivity]. exfalso.
+    assert (Px : fprefix vdbp x = true) by (destruct Hx as [->|Hx]; [exact Hv|now apply (fprefix_under _ pd)]).
+    assert (Ux : under (bs "/var/db") x = true).
+    { apply fprefix_spec in Px as (r & ->). apply under_spec. now exists (bs "pkg/" ++ r). }
+    destruct (m7_origin x E) as [H|[H|[[Hn H]|[[_ H]|[H|H]]]]].
+    + apply sel_in_all, no_vdb_recorded in H. congruence.
+    + revert H. apply (not_traversed (bs "/var/db")); [discriminate|exact vardb_nogo|exact Ux].
+    + destruct H as (d & Hd & Hx'). destruct (seldirs_ok d Hd) as (Hdc & Hds & Hdv).
+      change (In x (glob_rec t (star_pat d))) in Hx'. apply glob_rec_star_inv in Hx'; auto.
+      destruct (Hsep Hn d Hd) as (Hne & U1 & U2).
+      destruct Hx as [->|Hx]; [congruence|].
+      destruct (under_comparable _ _ _ Hx' Hx) as [H|[H|H]]; congruence.
+    + assert (Dx : fprefix devp x = true).
+      { pose proof static_under_dev as C. rewrite forallb_forall in C. apply C. apply in_or_app.
+        destruct H as [(li & Hin & Hk')|H]; [left|now right].
+        unfold add_names. apply in_flat_map. exists (OAdd li). split; [exact Hin|].
+        rewrite forallb_forall in dops_plain. specialize (dops_plain _ Hin). cbn in dops_plain.
+        apply negb_true_iff in dops_plain. unfold op_targets in Hk'. rewrite dops_plain in Hk'. exact Hk'. }
+      pose proof (fprefix_compat _ _ _ Dx Px) as C. rewrite dev_vdb_apart in C. discriminate C.
+    + rewrite (ops_avoid _ _ _ _ mops_avoid_vdb H) in Px. discriminate Px.
+    + rewrite (ops_avoid _ _ _ _ sops_avoid_vdb H) in Px. discriminate Px.
 Qed.
 End Content.
